@@ -12,6 +12,7 @@ import (
 	_ "verifharness/mon/c09"
 	_ "verifharness/mon/c11"
 	_ "verifharness/mon/c12"
+	_ "verifharness/mon/c15"
 	_ "verifharness/mon/c16"
 	_ "verifharness/mon/c19"
 )
